@@ -18,7 +18,7 @@ use std::sync::mpsc::{channel, Receiver, RecvTimeoutError, Sender};
 use std::sync::{Arc, Mutex};
 use std::time::Duration;
 use vharness::driver::{setup_world, step, tmp_root};
-use vharness::libwallet::api_impl::owner;
+use vharness::libwallet::api_impl::{owner, owner_updater};
 use vharness::world::{guarded, set_thread_globals, Outcome, World, U};
 
 enum Msg {
@@ -88,7 +88,7 @@ fn run_r_inline(w: &mut World, r: &Value) -> Value {
 }
 
 /// spawn R in its own thread, parked at every wallet_lock
-fn spawn_r(w: &World, r: &Value, tx: Sender<Msg>, go: Receiver<()>) -> std::thread::JoinHandle<()> {
+fn spawn_r(w: &World, r: &Value, tx: Sender<Msg>, go: Receiver<()>, running: Arc<std::sync::atomic::AtomicBool>) -> std::thread::JoinHandle<()> {
 	let wn = r["w"].as_str().unwrap_or("w1").to_string();
 	let inst = w.inst(&wn);
 	let mask = w.mask(&wn);
@@ -110,7 +110,13 @@ fn spawn_r(w: &World, r: &Value, tx: Sender<Msg>, go: Receiver<()>) -> std::thre
 				false
 			})));
 			let res = guarded(|| {
-				if r["ev"] == "scan" {
+				if r["via"] == "updater" {
+					// the background updater itself: Updater::run loops over update_wallet_state until its
+					// running flag is cleared (the scheduler clears it - stop_updater - while the first pass
+					// is parked at its first lock point, so the loop makes exactly one pass)
+					let u = owner_updater::Updater::new(inst.clone(), running.clone());
+					u.run(Duration::from_millis(1), mask.clone(), &None).map(|_| true)
+				} else if r["ev"] == "scan" {
 					owner::scan(
 						inst.clone(),
 						mask.as_ref(),
@@ -140,7 +146,8 @@ fn run_schedule(dir: &str, setup: &Value, sc: &Value, js: &[usize]) -> Value {
 	let mut w = run_prefix(dir, setup, &prefix);
 	let (tx, rx) = channel::<Msg>();
 	let (gotx, gorx) = channel::<()>();
-	let h = spawn_r(&w, &sc["r"], tx, gorx);
+	let running = Arc::new(std::sync::atomic::AtomicBool::new(false));
+	let h = spawn_r(&w, &sc["r"], tx, gorx, running.clone());
 	let mut next_op = 0usize;
 	let mut opres: Vec<Value> = vec![];
 	let mut passed = 0usize; // lock points R has passed
@@ -151,6 +158,8 @@ fn run_schedule(dir: &str, setup: &Value, sc: &Value, js: &[usize]) -> Value {
 			Ok(Msg::Parked(n)) => {
 				// R is parked before its n-th acquisition: it has passed n-1
 				passed = n - 1;
+				// (stop_updater: the pass under way is the last one)
+				running.store(false, Ordering::Relaxed);
 				while next_op < ops.len() && js[next_op] <= passed {
 					let e = step(&mut w, &ops[next_op]);
 					opres.push(json!({"ev": e["ev"], "res": e["res"], "at": passed}));
@@ -251,7 +260,7 @@ fn run_scenario(dir: &str, setup: &Value, sc: &Value, bid: usize) -> Vec<String>
 			let js: Vec<usize> = s.as_array().map(|a| a.iter().map(|x| x.as_u64().unwrap_or(0) as usize).collect()).unwrap_or_default();
 			let r = run_schedule(&format!("{}_i{}", dir, si), setup, sc, &js);
 			out.push(
-				json!({"ev": "conc", "b": bid, "sched": js, "r": sc["r"]["ev"], "w": sc["r"]["w"],
+				json!({"ev": "conc", "b": bid, "sched": js, "r": sc["r"]["ev"], "w": sc["r"]["w"], "via": sc["r"]["via"].as_str().unwrap_or(""),
 					"opkinds": sc["ops"].as_array().map(|a| a.iter().map(|e| e["ev"].clone()).collect::<Vec<_>>()).unwrap_or_default(),
 					"final": r["final"], "serials": sprojs, "rres": r["rres"], "opres": r["opres"], "hang": r["hang"],
 					"sections": r["sections"], "res": "ok"})
